@@ -384,9 +384,14 @@ package grpcgcp
 
 //@ protect gcpClientStream.{ClientStream} write_once gcpClientStream.Mutex
 //@ protect gcpClientStream.{initStreamErr} guarded_by gcpClientStream.Mutex
-//@ protect gcpClientStream.{cond,ctx,desc,cc,method,streamer,opts} immutable
-//@ cond gcpClientStream.cond uses gcpClientStream.Mutex
-//@ typeinv gcpClientStream := this.streamer != nil && this.cond != nil && this.ctx != nil
+//@ protect gcpClientStream.{ready,ctx,desc,cc,method,streamer,opts} immutable
+// ready is closed (under the lock, once) when the first SendMsg created the stream or failed to; it is never sent on,
+// so a receiver leaves its wait only when that has happened, or when the call's context ends
+//@ closeonly [C12] gcpClientStream.ready
+//@ guards gcpClientStream.Mutex: chanclosed
+//@ typeinv gcpClientStream := this.streamer != nil && this.ready != nil && this.ctx != nil
+//@ inv gcpClientStream.Mutex S1 [C12] := closed(this.ready) == (this.initStreamErr != nil || this.ClientStream != nil)
+//@ mono gcpClientStream.Mutex [C12] := old(closed(this.ready)) ==> closed(this.ready)
 //@
 //@ import grpc "google.golang.org/grpc"
 //@ sweepwrappers gcpClientStream
@@ -434,10 +439,13 @@ package grpcgcp
 //@   ensures [C12.create-ok] old(cs.ClientStream == nil) && $strErr == nil ==> cs.ClientStream == $strResult && cs.ClientStream != nil
 //@   ensures [C12.create-fail] old(cs.ClientStream == nil) && $strErr != nil ==> $ret0 == $strErr && cs.initStreamErr == $strErr && cs.ClientStream == nil
 //@   ensures [C12.send-delegates] cs.ClientStream != nil ==> $sendLast[cs.ClientStream] == m && $sendCalls[cs.ClientStream] == old($sendCalls)[cs.ClientStream] + 1
+//@ func (cs *gcpClientStream) signalReady
+//@   inline
 //@ func (cs *gcpClientStream) RecvMsg
 //@   interruptible_by cs.ctx
-//@   ensures [C12.recv-delegates] $ret0 == cs.initStreamErr && cs.initStreamErr != nil || (cs.ClientStream != nil && $recvCalls[cs.ClientStream] == old($recvCalls)[cs.ClientStream] + 1)
-//@   loop 1 blocking
+// leaves the wait only because the stream exists / failed (ready closed), or because the call's context ended
+//@   ensures [C12.recv-ctx] $recvCalls == old($recvCalls) || selected() == cs.ready
+//@   ensures [C12.recv-delegates] selected() == ctx_done(cs.ctx) || ($ret0 == cs.initStreamErr && cs.initStreamErr != nil) || (cs.ClientStream != nil && $recvCalls[cs.ClientStream] == old($recvCalls)[cs.ClientStream] + 1)
 
 // ---------------------------------------------------------------- GCPMultiEndpoint (C10, C15, C16)
 
